@@ -194,6 +194,61 @@ func c14Sweep(c *core.Ctx, k *core.Case) {
 	c.CoverN("len", fmt.Sprintf("%s/%d", t.name, n), cnt)
 }
 
+// c14Structured lists byte inputs derived from VALID encodings of every kind
+// the targets parse — each truncated at every length and extended by a few
+// octets, with small field enumerations (identity type, SUPI format, protection
+// scheme, odd/even indication) — so that boundaries like "header complete,
+// scheme output empty" are hit by construction, not by luck.
+func c14Structured(r *prng.Rand) [][]byte {
+	var base [][]byte
+	mcc, mnc := digits(r, 3), digits(r, 2+r.Intn(2))
+	for _, scheme := range []uint8{0, 1, 2, 3, 15} {
+		for _, msin := range []string{"", "1", "12", "1234567890"} {
+			for _, raw := range [][]byte{nil, {0xaa}, r.Bytes(9)} {
+				w := refconv.SuciWire(mcc, mnc, digits(r, 1+r.Intn(4)), scheme, r.Byte(), msin, raw)
+				base = append(base, w)
+				w2 := cloneB(w)
+				w2[6] = scheme<<4 | scheme // dirty high nibble of the scheme octet
+				base = append(base, w2)
+			}
+		}
+	}
+	base = append(base, refconv.NaiWire(nil), refconv.NaiWire(r.Bytes(1)), refconv.NaiWire(r.Bytes(20)))
+	base = append(base, refconv.GutiWire(mcc, mnc, r.Uint32()&0xffffff, r.Uint32()), refconv.STmsiWire(uint16(r.Uint32()), r.Byte(), r.Uint32()))
+	base = append(base, refconv.PeiWire(digits(r, 15), false), refconv.PeiWire(digits(r, 16), true), refconv.PeiWire(digits(r, 1), false), refconv.PeiWire(digits(r, 2), true))
+	// NSSAI lists, LADN indication, UE security capability, UPU ack, PSI, DNN labels
+	var nssai []byte
+	for _, v := range []int{1, 2, 4, 5, 8} {
+		nssai = append(nssai, refconv.SnssaiContents(c13RandSnssai(r, v))...)
+	}
+	base = append(base, nssai, refconv.LadnIndication([][]byte{[]byte("internet"), []byte("ims"), r.Bytes(100)}), r.Bytes(8), append([]byte{0x01}, r.Bytes(16)...), r.Bytes(2), rfc1035("ims.mnc001.mcc001.gprs"))
+	// a 0xFF length octet followed by 255+ octets (uint8 wrap-around of "length+1")
+	long := append([]byte{0xff}, r.Bytes(300)...)
+	base = append(base, long, append([]byte{3, 'a', 'b', 'c'}, long...))
+	var out [][]byte
+	for _, b := range base {
+		for n := 0; n <= len(b); n++ {
+			if len(b) > 60 && n > 24 && n < len(b)-24 && n%17 != 0 {
+				continue
+			}
+			out = append(out, cloneB(b[:n]))
+		}
+		out = append(out, append(cloneB(b), 0), append(cloneB(b), 0xff, 0xff))
+		// first-octet variations: every identity type × SUPI format × odd/even bit
+		if len(b) > 0 {
+			for _, f := range []byte{0x00, 0x01, 0x11, 0x21, 0x02, 0x0a, 0xf2, 0x03, 0x0b, 0x04, 0xf4, 0x05, 0x0d, 0x06, 0x07, 0x09, 0x71} {
+				v := cloneB(b)
+				v[0] = f
+				out = append(out, v)
+				if len(v) >= 9 {
+					out = append(out, cloneB(v[:8]), cloneB(v[:9]))
+				}
+			}
+		}
+	}
+	return out
+}
+
 // c14Grammar draws an input biased to what the target parses.
 func c14Grammar(r *prng.Rand, t *c14Target, i int) []byte {
 	if t.text {
@@ -296,8 +351,8 @@ func init() {
 					f = append(f, fmt.Sprintf("%s: %d of %d inputs of length %d", t.name, got, want, n))
 				}
 			}
-			if cov["generated"][t.name] == 0 {
-				f = append(f, t.name+": no generated inputs")
+			if cov["generated"][t.name] == 0 || (!t.text && cov["structured"][t.name] == 0) {
+				f = append(f, t.name+": no generated / structured inputs")
 			}
 		}
 		sort.Strings(f)
@@ -349,6 +404,15 @@ func init() {
 					c.Sample(k.Brief())
 				}
 				c.Cover("generated", t.name)
+				if !t.text {
+					st := c14Structured(c.R)
+					for _, b := range st {
+						k := &core.Case{Oracle: "one", Target: t.name, B: [][]byte{b}}
+						c.Do(k)
+						c.NonTrivial(k.Hash())
+					}
+					c.CoverN("structured", t.name, int64(len(st)))
+				}
 			}})
 		}
 		return us
